@@ -39,7 +39,7 @@ CHECKS = {
    "5/C10"),
  "C20": ("vprim",
    "enumeration of boundary families + proptest-generated item sequences, round-trip and byte-consumption oracle",
-   "All listed lengths, tags (4 classes x 0..30), booleans and every boolean content octet, i64/u64 boundary families through the raw primitives and through BasicWriter/BasicReader with Integer<i8..u64>, Boolean and Enumerated (1..300 items, non-extensible and extensible, every index), and Integer / Boolean / Enumerated whose constraint carries a tag of each of the four classes, alone and in generated sequences of 2..8 items in one buffer: value read == value written, bytes consumed == bytes written, nothing remains.",
+   "All listed lengths, tags (4 classes x 0..30), booleans and every boolean content octet, i64/u64 boundary families through the raw primitives and through BasicWriter/BasicReader with Integer<i8..u64>, Boolean and Enumerated (1..300 items, non-extensible and extensible, every index), and Integer / Boolean / Enumerated whose constraint carries a tag of each of the four classes, alone and in generated sequences of 2..8 items in one buffer: value read == value written, bytes consumed == bytes written, nothing remains; the same through readers delivering 1 or 3 octets per call and writers accepting 1 or 3 octets per call (octets received == octets a Vec receives).",
    "Integers are read back with the byte count the writer produced (the raw primitives carry no length).",
    "5/C20"),
  "C11": ("vprim",
@@ -89,7 +89,7 @@ CHECKS = {
    "5/C14"),
  "C15": ("vfront",
    "bounded-exhaustive enumeration of INTEGER constraints over a boundary family with an independent width/sign oracle",
-   "All ordered pairs from B = {0, +-1, +-2^k, +-2^k+-1 (k<=63)} U [-20,20] as (min..max) and (min..max,...), every b as (b..MAX), (MIN..b) and extensible forms, plus INTEGER / (MIN..MAX): as top-level definition and as SEQUENCE field through tokenizer, parser, resolver, to_rust and RustCodeGenerator; Rust type, model bounds and generated *_min()/*_max() bodies == oracle.",
+   "All ordered pairs from B = {0, +-1, +-2^k, +-2^k+-1 (k<=63)} U [-20,20] as (min..max) and (min..max,...), every b as (b..MAX), (MIN..b) and extensible forms, plus INTEGER / (MIN..MAX): as top-level definition, as SEQUENCE field and as the type of a module-level value reference (constant: wide enough, 64-bit when extensible) through tokenizer, parser, resolver, to_rust and RustCodeGenerator; Rust type, model bounds and generated *_min()/*_max() bodies == oracle.",
    "Exhaustive over the stated family only. (MIN..ub) non-extensible is an open finding pinned by a repository test.",
    "5/C15"),
  "C16": ("vfront",
